@@ -624,8 +624,9 @@ def run(ctx):
                         "C built with gcc -O2 -ffp-contract=off (binary64/binary32 operation by operation), AddressSanitizer on the array helpers",
                         "the model is of the a_real=double build; the float build is covered by the accuracy tie only",
                         "signed zeros, infinities and NaN arguments are compared bit for bit with the model but are outside the accuracy statement",
-                        "cart2sph is outside the accuracy statement when the intermediate radius sqrt(x^2+y^2) overflows or is a non-zero "
-                        "subnormal number (its rounding error then dominates the elevation angle in both configurations)"]
+                        "cart2sph: points whose intermediate radius sqrt(x^2+y^2) overflows are outside the accuracy statement (the radius is "
+                        "not representable); points whose intermediate radius is a non-zero subnormal number are not swept but probed: "
+                        "the elevation is wrong there in both configurations, an OPEN finding listed in KNOWN_FINDINGS.txt"]
     srcs = ["math.c", "a.c"]
     bx = ctx.cc("drv_bx", [H / "drv.c", fcorr.LIBM_SUBST], repo_srcs=srcs, mode="num", have=0, real=8,
                 extra=fcorr.WRAP_FLAGS + ["-fsanitize=address", "-g"])
@@ -739,6 +740,31 @@ def run(ctx):
                    {"fn": fn, "args_hex": [v.hex() for v in a], "args": [repr(v) for v in a], "configuration": cfg, "c_output": got,
                     "reference": ref, "how": "echo '%s %s' | build/C11/drv_h%d_r%d" % (fn, " ".join(fcorr.argbits(v) for v in a), have, real)})
         nrep += 1
+
+    # the excluded domain of cart2sph is not swept, but it is not hidden either: a fixed set of probes in it is evaluated
+    # in every configuration and a failure is reported under one key (KNOWN_FINDINGS.txt lists it as an open finding: the
+    # elevation is computed from the rounded intermediate radius, whose relative error is large once it is subnormal)
+    sub = {8: [(5e-324, 5e-324, 5e-324), (1e-320, 2e-320, 3e-320), (3e-310, -4e-310, 1e-310)],
+           4: [(1.4e-45, 1.4e-45, 1.4e-45), (1e-42, 2e-42, 3e-42), (3e-40, -4e-40, 1e-40)]}
+    probe_fail = []
+    for (have, real), b in sorted(accbin.items()):
+        P = [("c2s", tuple(f32(v) for v in a) if real == 4 else a) for a in sub[real]]
+        for (fn, a), (e, got, ref) in zip(P, acc_eval(ctx, b, real, P)):
+            nacc += 1
+            if e > K_TOL[real]:
+                probe_fail.append((e, have, real, a, got, ref))
+    if probe_fail:
+        e, have, real, a, got, ref = max(probe_fail, key=lambda t: (t[0] if t[0] != INF else 1e99))
+        ctx.report("c2s/accuracy/subnormal-intermediate-radius",
+                   "a_real_cart2sph(%s) [A_HAVE_*=%d, %s] = %s, mathematical value %s: error %s eps; the intermediate radius "
+                   "sqrt(x^2+y^2) is a subnormal number and its rounding error dominates the elevation atan2(z, r) "
+                   "(%d of %d probes fail, libm-bound and fallback alike)"
+                   % (", ".join(v.hex() for v in a), have, "double" if real == 8 else "float",
+                      [fcorr.fval(g) if g != "nan" else NAN for g in got], ref, "inf" if e == INF else "%.3g" % e,
+                      len(probe_fail), 3 * len(accbin)),
+                   {"fn": "c2s", "args_hex": [v.hex() for v in a], "args": [repr(v) for v in a],
+                    "configuration": "A_HAVE_*=%d, real=%d" % (have, real), "c_output": got, "reference": ref})
+    ctx.cov["cart2sph_subnormal_radius_probes_failing"] = len(probe_fail)
 
     ctx.count(evaluations=len(cases) + nacc,
               nontrivial=len(set(c["line"] for c in cases if c["kind"] == "scalar" or c["ints"][0] > 0)) + len(set(pts)))
